@@ -61,6 +61,48 @@ def _getitem_paths(fn):
     return out
 
 
+def _reinterpret_paths(fv):
+    """every returning path of View.__getitem__, classified by the outcome of its two tests `isinstance(S, ShapeCastable)` and
+    `Shape.cast(S).signed` on the field's shape S: the result must be S(raw.as_signed()), S(raw), raw.as_signed(), raw
+    respectively — however the tests and the rebinding of `value` are arranged"""
+    import re
+    ok, n = True, 0
+    for p in run_paths(fv.body, max_paths=1024):
+        if p.how != "return" or p.ret is None:
+            continue
+        cast = sgn = subj = None
+        for c, pol in p.conds:
+            t = unparse(c)
+            m = re.fullmatch(r"isinstance\((.+), ShapeCastable\)", t)
+            if m:
+                cast, subj = pol, m.group(1)
+                continue
+            m = re.fullmatch(r"Shape\.cast\((.+)\)\.signed", t)
+            if m:
+                sgn = pol
+        if subj is None or sgn is None:
+            # an array layout (the shape of a slice of an array view) is shape-castable and unsigned by construction; any other
+            # shape has to be asked: one result cannot serve both answers
+            if subj is not None and subj.startswith("ArrayLayout(") and sgn is None:
+                sgn = False
+            if cast is None or sgn is None:
+                n += 1
+                ok = False
+                continue
+        r, lifted = p.ret, False
+        if isinstance(r, ast.Call) and len(r.args) == 1 and not r.keywords and unparse(r.func) == subj:
+            lifted, r = True, r.args[0]
+        m = pmatch("_V_X.as_signed()", r)
+        signed = m is not None
+        if signed:
+            r = m["_V_X"]
+        raw = not any(isinstance(x, ast.Attribute) and x.attr in ("as_signed", "as_unsigned") for x in ast.walk(r)) and \
+            not any(isinstance(x, ast.Call) and unparse(x.func) == subj for x in ast.walk(r))
+        n += 1
+        ok = ok and lifted == cast and signed == sgn and raw
+    return ok, n
+
+
 def r15a(model, ctx):
     R = "R-15a"
     fv = model.func(f"{D}::View.__getitem__")
@@ -114,11 +156,8 @@ def r15a(model, ctx):
     tv, tc = unparse(fv), unparse(fc)
     # a shape-castable field is lifted with shape(value); when its underlying shape is signed the (unsigned) slice is first
     # reinterpreted as signed — an enumeration with a signed shape refuses a value of another shape (F15)
-    ok = "if isinstance(shape, ShapeCastable):\n        if Shape.cast(shape).signed:\n            value = value.as_signed()\n        value = shape(value)" in tv and \
-        "if Shape.cast(shape).signed:\n        return value.as_signed()\n    else:\n        return value" in tv
-    if not ok:
-        lifted = [c for c in ast.walk(fv) if isinstance(c, ast.Call) and unparse(c.func) == "shape" and len(c.args) == 1]
-        need(lifted, "View.__getitem__: the lifting of a shape-castable field (shape(value)) was not found")
+    ok, n_re = _reinterpret_paths(fv)
+    need(n_re >= 8, f"View.__getitem__: only {n_re} returning paths classified")
     ctx.check(ok, R, "View.__getitem__:reinterpret", "shape-castable: shape(value); signed: as_signed(); else the raw slice",
               "a view's field must be shape(value) for shape-castable fields, value.as_signed() for signed fields, the raw slice otherwise",
               f"{D}:{fv.lineno}")
@@ -255,6 +294,162 @@ def r15c(model, ctx):
     ctx.check(ok, R, "UnionLayout.const", "at most one field initialised", "a union constant may initialise at most one field", f"{D}:{f.lineno}")
 
 
+def _flag_invert_ok(fi):
+    """FlagView.__invert__, decided by what it computes: (A) the loop over the enumeration ors together exactly the members
+    whose value has at most one bit set (the test is evaluated over 0..79 with a tiny interpreter of integer expressions);
+    (B) for every boundary (none, STRICT, CONFORM, EJECT, KEEP) the path taken returns the enum's view of ~value for
+    EJECT/KEEP and of ~value & mask otherwise."""
+    import re
+    from ..engine.bitalg import Canon
+    from .c17 import _short
+    loops = [n for n in ast.walk(fi) if isinstance(n, (ast.For, ast.While, ast.ListComp, ast.GeneratorExp, ast.SetComp))]
+    if not loops and any(isinstance(n, ast.Attribute) and n.attr in ("_flag_mask_", "_all_bits_") for n in ast.walk(fi)):
+        return False        # the enum module's mask of *all* member bits (multi-bit aliases included) is a different mask
+    need(len(loops) == 1 and isinstance(loops[0], ast.For) and isinstance(loops[0].target, ast.Name) and not loops[0].orelse,
+         "FlagView.__invert__: the loop collecting the single-bit flags was not recognised")
+    lp = loops[0]
+    x = lp.target.id
+    need(unparse(lp.iter) in ("enum_cls", "self.shape()"), f"FlagView.__invert__: loop over `{unparse(lp.iter)}` not recognised")
+    need(len(lp.body) == 1 and isinstance(lp.body[0], ast.If) and not lp.body[0].orelse and len(lp.body[0].body) == 1
+         and isinstance(lp.body[0].body[0], ast.AugAssign) and isinstance(lp.body[0].body[0].target, ast.Name),
+         "FlagView.__invert__: loop body is not `if <single-bit test>: mask |= flag.value`")
+    aug = lp.body[0].body[0]
+    acc = aug.target.id
+    if not (isinstance(aug.op, ast.BitOr) and unparse(aug.value) == f"{x}.value"):
+        return False
+    inits = [n for n in ast.walk(fi) if isinstance(n, ast.Assign) and any(isinstance(t, ast.Name) and t.id == acc for t in n.targets)]
+    others = [n for n in ast.walk(fi) if isinstance(n, ast.AugAssign) and isinstance(n.target, ast.Name) and n.target.id == acc and n is not aug]
+    need(len(inits) == 1 and not others and inits[0].lineno < lp.lineno, f"FlagView.__invert__: `{acc}` is assigned in more than one place")
+    if const_int(inits[0].value) != 0:
+        return False
+
+    def iv(e, v):
+        if isinstance(e, ast.Attribute) and unparse(e) == f"{x}.value":
+            return v
+        if isinstance(e, ast.Constant) and isinstance(e.value, bool):
+            return e.value
+        c = const_int(e)
+        if c is not None:
+            return c
+        if isinstance(e, ast.BinOp):
+            a, b = iv(e.left, v), iv(e.right, v)
+            ops = {ast.BitAnd: lambda: a & b, ast.BitOr: lambda: a | b, ast.BitXor: lambda: a ^ b, ast.Add: lambda: a + b,
+                   ast.Sub: lambda: a - b, ast.LShift: lambda: a << b if 0 <= b < 64 else need(False, "shift"),
+                   ast.RShift: lambda: a >> b if 0 <= b < 64 else need(False, "shift")}
+            need(type(e.op) in ops, f"FlagView.__invert__: single-bit test `{unparse(e)}` not recognised")
+            return ops[type(e.op)]()
+        if isinstance(e, ast.UnaryOp) and isinstance(e.op, ast.Invert):
+            return ~iv(e.operand, v)
+        if isinstance(e, ast.UnaryOp) and isinstance(e.op, ast.USub):
+            return -iv(e.operand, v)
+        if isinstance(e, ast.UnaryOp) and isinstance(e.op, ast.Not):
+            return not iv(e.operand, v)
+        if isinstance(e, ast.BoolOp):
+            vals = [bool(iv(t, v)) for t in e.values]
+            return all(vals) if isinstance(e.op, ast.And) else any(vals)
+        if isinstance(e, ast.Compare) and len(e.ops) == 1:
+            a, b = iv(e.left, v), iv(e.comparators[0], v)
+            ops = {ast.Eq: a == b, ast.NotEq: a != b, ast.Lt: a < b, ast.LtE: a <= b, ast.Gt: a > b, ast.GtE: a >= b}
+            need(type(e.ops[0]) in ops, f"FlagView.__invert__: single-bit test `{unparse(e)}` not recognised")
+            return ops[type(e.ops[0])]
+        if isinstance(e, ast.Call) and unparse(e) == f"{x}.value.bit_count()":
+            return bin(v).count("1")
+        need(False, f"FlagView.__invert__: single-bit test `{unparse(e)}` not recognised")
+
+    for v in range(80):
+        if bool(iv(lp.body[0].test, v)) != (v & (v - 1) == 0):
+            return False
+
+    # (B) the paths
+    paths = [p for p in run_paths(fi.body)]
+    canon = Canon()
+    bounds = ("STRICT", "CONFORM", "EJECT", "KEEP")
+
+    def atom(e, state, _unused):
+        t = unparse(e)
+        if re.fullmatch(r"hasattr\((self\.shape\(\)|enum_cls), '_boundary_'\)", t):
+            return state is not None
+        if isinstance(e, ast.Compare) and len(e.ops) == 1 and re.fullmatch(r"(self\.shape\(\)|enum_cls)\._boundary_", unparse(e.left)):
+            need(state is not None, "FlagView.__invert__ reads _boundary_ of an enumeration that may not have one")
+            rhs = e.comparators[0]
+            if isinstance(e.ops[0], (ast.In, ast.NotIn)) and isinstance(rhs, (ast.Tuple, ast.List, ast.Set)):
+                names = [unparse(n).split(".")[-1] for n in rhs.elts]
+                need(all(n in bounds for n in names), f"FlagView.__invert__: boundary test `{t}` not recognised")
+                return (state in names) == isinstance(e.ops[0], ast.In)
+            if isinstance(e.ops[0], (ast.Eq, ast.Is, ast.NotEq, ast.IsNot)):
+                n = unparse(rhs).split(".")[-1]
+                need(n in bounds, f"FlagView.__invert__: boundary test `{t}` not recognised")
+                return (state == n) == isinstance(e.ops[0], (ast.Eq, ast.Is))
+        need(False, f"FlagView.__invert__: condition `{t}` not recognised")
+
+    for state in (None,) + bounds:
+        taken = None
+        for p in paths:
+            if all(bool(_short(atom, c, state, None)) == pol for c, pol in p.conds):
+                taken = p
+                break
+        need(taken is not None, "FlagView.__invert__: no path for some boundary")
+        if taken.how != "return" or taken.ret is None:
+            return False
+        m = pmatch("_V_C._amaranth_view_class_(_V_D, _V_W)", taken.ret)
+        need(m is not None, f"FlagView.__invert__: result `{unparse(taken.ret)}` not recognised")
+        if not (unparse(m["_V_C"]) == unparse(m["_V_D"]) == "self.shape()"):
+            return False
+        want = "~self.as_value()" if state in ("EJECT", "KEEP") else f"~self.as_value() & {acc}__loop0"
+        if canon(m["_V_W"]) != canon(ast.parse(want, mode="eval").body):
+            return False
+    return True
+
+
+def _format_lift_ok(fn, what):
+    """the per-field loop of a layout's format(): on every path the formatted operand is the raw slice, reinterpreted with
+    .as_signed() exactly when the field's shape is signed, and lifted with S(...) / S.format(...) exactly when S is
+    shape-castable (F15, F17) — classified by the outcome of the two tests, however they are arranged"""
+    import re
+    loops = [n for n in ast.walk(fn) if isinstance(n, ast.For)]
+    need(len(loops) == 1, f"{what}: expected one loop over the fields")
+    ok, n = True, 0
+    for p in run_paths(loops[0].body):
+        if p.how != "fall":
+            continue
+        cast = sgn = subj = None
+        for c, pol in p.conds:
+            t = unparse(c)
+            m = re.fullmatch(r"isinstance\((.+), ShapeCastable\)", t)
+            if m:
+                cast, subj = pol, m.group(1)
+                continue
+            if re.fullmatch(r"(.+)\.signed", t):
+                sgn = pol
+        need(p.effects, f"{what}: a path through the loop body records nothing")
+        e = p.effects[-1]
+        if isinstance(e, ast.Assign) and isinstance(e.targets[0], ast.Subscript):
+            x = e.value
+        elif isinstance(getattr(e, "value", e), ast.Call) and isinstance(getattr(e, "value", e).func, ast.Attribute) and \
+                getattr(e, "value", e).func.attr == "append" and len(getattr(e, "value", e).args) == 1:
+            x = getattr(e, "value", e).args[0]
+        else:
+            need(False, f"{what}: `{unparse(e)}` is not the recording of a field's format")
+        n += 1
+        if cast is None or sgn is None:
+            ok = False          # one result cannot serve both answers
+            continue
+        m = pmatch("_V_S.format(_V_T(_V_X), '')", x)
+        lifted = m is not None and unparse(m["_V_S"]) == unparse(m["_V_T"]) == subj
+        if not lifted:
+            m = pmatch("Format('{}', _V_X)", x)
+            need(m is not None, f"{what}: formatted field `{unparse(x)}` not recognised")
+        r = m["_V_X"]
+        m2 = pmatch("_V_X.as_signed()", r)
+        signed = m2 is not None
+        if signed:
+            r = m2["_V_X"]
+        raw = isinstance(r, ast.Subscript) and not any(isinstance(y, ast.Attribute) and y.attr in ("as_signed", "as_unsigned") for y in ast.walk(r))
+        ok = ok and lifted == cast and signed == sgn and raw
+    need(n >= 2, f"{what}: only {n} paths through the field loop")
+    return ok
+
+
 def r15d(model, ctx):
     R = "R-15d"
     c = model.cls(f"{E}::FlagView")
@@ -278,8 +473,7 @@ def r15d(model, ctx):
     ctx.check(ok, R, "FlagView.__bitop", "op(self.as_value(), other.as_value()) wrapped in the enum's view", "__bitop must apply op to the "
               "two underlying values in order and wrap the result", f"{E}:{fb.lineno if fb else c.lineno}")
     fi = ms.get("__invert__")
-    t = unparse(fi)
-    ok = "if flag.value & flag.value - 1 == 0:\n                singles_mask |= flag.value" in t and "~self.as_value() & singles_mask" in t
+    ok = _flag_invert_ok(fi)
     ctx.check(ok, R, "FlagView.__invert__", "complement within the mask of single-bit flags (STRICT/CONFORM boundary)",
               "~flags must be masked with the or of all single-bit flag values unless the boundary is EJECT/KEEP", f"{E}:{fi.lineno}")
     from ..engine import refsem as _rs
@@ -302,15 +496,13 @@ return cls(Const(member.value, cls.as_shape()))
               f"from_bits must look the member up by the value of the bit pattern in the enumeration's own shape "
               f"(cls(Const(bits, cls.as_shape()).value)); found {rets}", f"{E}:{f.lineno}")
     # Layout.format lifts fields the same way as View.__getitem__
-    ff = model.func(f"{D}::Layout.format")
-    tf = unparse(ff)
-    okf = "if shape.signed:\n            field_value = field_value.as_signed()\n        if isinstance(field.shape, ShapeCastable):" in tf
-    if not okf:
-        need("field.shape(field_value)" in tf or "field.shape(" in tf, "Layout.format: the lifting of shape-castable fields was not found")
-    ctx.check(okf, R, "Layout.format:signed-fields", "signed fields (shape-castable or not) are reinterpreted before use",
-              "Layout.format must reinterpret the slice of a signed field as signed before handing it to a shape-castable shape "
-              "(Signal(S) builds the format eagerly: a struct with a signed enumeration field could not be instantiated)",
-              f"{D}:{ff.lineno}")
+    for q in ("Layout.format", "ArrayLayout.format"):
+        ff = model.func(f"{D}::{q}")
+        okf = _format_lift_ok(ff, q)
+        ctx.check(okf, R, f"{q}:signed-fields", "signed fields (shape-castable or not) are reinterpreted before use",
+                  f"{q} must reinterpret the slice of a signed field as signed before handing it to a shape-castable shape or to "
+                  "Format (Signal(S) builds the format eagerly: a layout with a signed enumeration field could not be instantiated)",
+                  f"{D}:{ff.lineno}")
     c = model.cls(f"{E}::EnumView")
     ms = model.class_methods(c)
     for name, op in (("__eq__", "=="), ("__ne__", "!=")):
